@@ -101,6 +101,14 @@ def make_subsets(r: random.Random, nums: Numbers, bare_ids: bool) -> List[J]:
                          "subs": [{"name": n, "id": f"{sname}.{TABLE}.{n}",
                                    "default": nums.content(n)} for n in subs]}],
         })
+        if r.random() < 0.4:
+            # a sub-parameter that is complex itself, somewhere in front of simple ones: the
+            # positions of the sub-values are those of the specification in document order
+            subs_ = res[-1]["complex"][0]["subs"]
+            subs_.insert(r.randrange(0, len(subs_)), {
+                "name": "CP_AuxFilter", "id": f"{sname}.{TABLE}.CP_AuxFilter", "default": "",
+                "nested": [{"name": n, "id": f"{sname}.{TABLE}.CP_AuxFilter.{n}",
+                            "default": nums.num()} for n in ("CP_AuxMask", "CP_AuxPattern")]})
     return res
 
 
@@ -146,7 +154,8 @@ def gen_value(r: random.Random, nums: Numbers, spec: J, is_complex: bool,
             return ""
         return None
     n = len(spec["subs"])
-    full = [nums.content(s["name"]) for s in spec["subs"]]
+    full = [nums.content(s["name"]) if "nested" not in s else [nums.num() for _ in s["nested"]]
+            for s in spec["subs"]]
     x = r.random()
     if x < 0.35:
         return full
@@ -324,11 +333,20 @@ def emit_subset(s: J) -> str:
         x += (f'<COMPLEX-COMPARAM ID={quoteattr(c["id"])} PARAM-CLASS="UNIQUE_ID" '
               f'CPTYPE="STANDARD" CPUSAGE="ECU-COMM" ALLOW-MULTIPLE-VALUES="true">'
               f'<SHORT-NAME>{c["name"]}</SHORT-NAME>')
-        x += "".join(_simple_comparam(sub, dop_id) for sub in c["subs"])
+        for sub in c["subs"]:
+            if "nested" in sub:
+                x += (f'<COMPLEX-COMPARAM ID={quoteattr(sub["id"])} PARAM-CLASS="UNIQUE_ID" '
+                      f'CPTYPE="STANDARD" CPUSAGE="ECU-COMM"><SHORT-NAME>{sub["name"]}</SHORT-NAME>' +
+                      "".join(_simple_comparam(s2, dop_id) for s2 in sub["nested"]) +
+                      "</COMPLEX-COMPARAM>")
+            else:
+                x += _simple_comparam(sub, dop_id)
         if c.get("cpdv"):  # agrees with the sub-parameters' own defaults
             x += "<COMPLEX-PHYSICAL-DEFAULT-VALUE>" + "".join(
-                f'<SIMPLE-VALUE>{escape(sub["default"])}</SIMPLE-VALUE>' for sub in c["subs"]) + \
-                "</COMPLEX-PHYSICAL-DEFAULT-VALUE>"
+                f'<SIMPLE-VALUE>{escape(sub["default"])}</SIMPLE-VALUE>' if "nested" not in sub else
+                "<COMPLEX-VALUE>" + "".join(f'<SIMPLE-VALUE>{escape(s2["default"])}</SIMPLE-VALUE>'
+                                            for s2 in sub["nested"]) + "</COMPLEX-VALUE>"
+                for sub in c["subs"]) + "</COMPLEX-PHYSICAL-DEFAULT-VALUE>"
         x += "</COMPLEX-COMPARAM>"
     x += "</COMPLEX-COMPARAMS>"
     x += (f'<DATA-OBJECT-PROPS><DATA-OBJECT-PROP ID={quoteattr(dop_id)}>'
@@ -367,6 +385,8 @@ def emit_ref(ref: J, omitted_as_empty: bool = False, stack: Optional[str] = None
         x += f"<SIMPLE-VALUE>{escape(v)}</SIMPLE-VALUE>" if v else "<SIMPLE-VALUE/>"
     else:
         x += "<COMPLEX-VALUE>" + "".join(
+            "<COMPLEX-VALUE>" + "".join(f"<SIMPLE-VALUE>{escape(s2)}</SIMPLE-VALUE>" for s2 in s) +
+            "</COMPLEX-VALUE>" if isinstance(s, list) else
             f"<SIMPLE-VALUE>{escape(s)}</SIMPLE-VALUE>" if s else "<SIMPLE-VALUE/>"
             for s in v) + "</COMPLEX-VALUE>"
     if ref["proto"] is not None:
